@@ -67,6 +67,7 @@ func c12Build(in c12Input) ([]mockq.Rec, refmodel.Expr) {
 }
 
 func c12Check(r *vkit.Run, in c12Input) bool {
+	r.Begin("C12", in)
 	data, expr := c12Build(in)
 	start := (c09Base + 5) * sec
 	end, step := start, int64(0)
